@@ -11,6 +11,7 @@ HARNESS = {
     'refcount': dict(srcs=['harness/sched/refcount.c', 'harness/sched/sched.c', 'harness/common/cumem.c'] + COMMON),
     'wakeup': dict(srcs=['harness/sched/wakeup.c', 'harness/sched/sched.c', 'harness/common/mockloop.c'] + COMMON),
     'pumplab': dict(srcs=['harness/pipelab/pumplab.c', 'harness/common/mockloop.c'] + COMMON),
+    'pipelab': dict(srcs=['harness/pipelab/pipelab.c', 'harness/pipelab/lab.c', 'harness/common/mockloop.c', 'harness/common/cumem.c'] + COMMON),
     'picsound': dict(srcs=['harness/corelab/picsound.c', 'harness/common/cumem.c'] + COMMON),
 }
 
@@ -348,5 +349,86 @@ PROPS['C13'] = dict(
         dict(name='pump-ev', bin='pumplab', variant='asan', mode='ev',
              quick=100000, thorough=4000000,
              require=['cb.reentrant_stop', 'dispatch.fired', 'dispatch.silent']),
+    ],
+)
+
+PIPELAB_NOTE = (SAN_NOTE + 'Catalogue pipes only (see evidence observed/pipe.*); '
+                'the driver obeys the ownership / ordering protocol of a '
+                'well-behaved upstream (no input before an accepted flow '
+                'definition, one release per reference).')
+
+PROPS['C04'] = dict(
+    engine='pipelab',
+    key_prefixes=['c04:', 'abort:', 'crash:', 'timeout'],
+    technique='runtime monitoring: event-order automaton over the merged log '
+              'of recording probes, recording sinks and driver calls, for '
+              'random protocol-respecting histories on every catalogue pipe',
+    level_text='Trace checking: ready first / dead once and last / nothing '
+               'after dead (probe and output side), and flow-definition '
+               'negotiation before data on every connection, change of '
+               'definition and rejection, over random histories of '
+               'set_flow_def / input / set_output / flush / options / sub-pipe '
+               'alloc+release / release on each catalogue pipe.',
+    level_note=PIPELAB_NOTE + ' Releasing the output and unregistering '
+               'requests during teardown are not counted as touching the '
+               'output.',
+    rule='case = one pipe type + 10-40 driver operations; non-trivial = case '
+         'with >= 3 inputs; distinct = hash of the operation sequence',
+    assumptions=['log events are exempt from "ready first" (statement)',
+                 'teardown unregister/release is not "touching the output"'],
+    jobs=[
+        dict(name='pipelab', bin='pipelab', variant='asan', mode='c04',
+             quick=60000, thorough=3000000,
+             require=['c04.negotiations', 'c04.inputs_checked', 'op.sub_alloc',
+                      'op.set_flow_def_bad']),
+    ],
+)
+
+PROPS['C05'] = dict(
+    engine='pipelab',
+    key_prefixes=['c05:', 'abort:', 'crash:', 'timeout'],
+    technique='runtime monitoring: exactly-once / in-order / documented-'
+              'transform ledger at recording sinks, sequence numbers carried '
+              'in an attribute and in the payload, per-class reference '
+              'functions',
+    level_text='For every input of every generated history the deliveries at '
+               'the recording sinks are compared synchronously with the '
+               'class oracle (identity, payload transform, filter, sink, '
+               'duplicating split incl. sub-outputs added/removed mid-stream) '
+               'or asynchronously (holding pipes: once, in order, payload '
+               'intact).',
+    level_note=PIPELAB_NOTE,
+    rule='case = one pipe type + 10-40 driver operations; non-trivial = case '
+         'with >= 3 inputs; distinct = hash of the operation sequence',
+    assumptions=['skip with an offset larger than the buffer forwards it '
+                 'unchanged (documented resize failure)'],
+    jobs=[
+        dict(name='pipelab', bin='pipelab', variant='asan', mode='c05',
+             quick=60000, thorough=3000000,
+             require=['c05.deliveries_checked', 'c05.async_deliveries_checked']),
+    ],
+)
+
+PROPS['C01'] = dict(
+    engine='pipelab',
+    key_prefixes=['c01:', 'asan:', 'lsan:', 'abort:', 'crash:', 'timeout'],
+    technique='runtime monitoring: AddressSanitizer (pool depth 0) + pool '
+              'hook poisoning parked objects and tracking live ones (pool '
+              'depth > 0) + counting umem manager with guard zones + manager '
+              'refcounts back to 1, over random protocol-respecting histories',
+    level_text='Ownership accounting after every generated history: no pooled '
+               'object (uref, ubuf, udict, upump, shared area) still held, no '
+               'umem block allocated, every manager back to a single '
+               'reference, no double park / double free / use after '
+               'release (ASan, poisoned pool objects).',
+    level_note=PIPELAB_NOTE + ' Allocation failures are not injected.',
+    rule='case = one pipe type + 10-40 driver operations, random pool depth; '
+         'non-trivial = case with >= 3 inputs; distinct = hash of the '
+         'operation sequence',
+    assumptions=['allocation failure paths are outside the quantifier'],
+    jobs=[
+        dict(name='pipelab', bin='pipelab', variant='asan', mode='c01',
+             quick=60000, thorough=3000000,
+             require=['c01.accounted_cases']),
     ],
 )
